@@ -82,6 +82,7 @@ var c10big = Register("C10", "C10.frombig", func(a c10BigArgs) *Violation {
 		return nil
 	}
 	keep := new(big.Int).Set(i)
+	primedUnderAnotherMode(hashString(a.I), func() { _ = d128.FromInt(i) })
 	got := ref.Decode(d128.FromInt(i))
 	if i.Cmp(keep) != 0 {
 		return violf("FromInt modified its argument")
@@ -314,6 +315,7 @@ var c10fromrat = Register("C10", "C10.fromrat", func(a c10FromRatArgs) *Violatio
 		return nil
 	}
 	r := new(big.Rat).SetFrac(num, den) // normalises sign and common factors, as any caller's Rat is
+	primedUnderAnotherMode(hashString(a.Num)+hashString(a.Den), func() { _ = d128.FromRat(r) })
 	got := ref.Decode(d128.FromRat(r))
 	if r.Sign() == 0 {
 		if !got.IsZero() {
@@ -330,6 +332,12 @@ var c10fromrat = Register("C10", "C10.fromrat", func(a c10FromRatArgs) *Violatio
 			return violf("FromRat(%s/%s) = %s, want %s", rn, rd, got, want)
 		}
 		k, _ := inexactClass(x)
+		if k == "exact" {
+			// the correctly rounded quotient of a representable value is that value, whatever DefaultRoundingMode is
+			if v := exactInAllModes("FromRat("+rn.String()+"/"+rd.String()+")", d128.FromRat(r), func() d128.Decimal { return d128.FromRat(r) }); v != nil {
+				return v
+			}
+		}
 		st.Class("<=34digits/" + k)
 	} else {
 		hugeTerm := ref.RoundX(ref.X{Num: rn, Den: ref.One}, d128.ToNearestEven, false).Class == ref.Inf ||
